@@ -13,7 +13,10 @@ RULE = ("layout trees of depth <= 3 (struct/union/array/flexible over u0..u5, s1
         "Layout.const(init) + nested Const.__getitem__ paths, from_bits/as_bits + every field (raw exhaustive for size <= 8 "
         "incl. -1 and 2^size, random above), simulator ctx.get(view[path]) incl. dynamic array index, "
         "ctx.set(view[path], x) then ctx.get(view.as_value()) and read-back; malformed initialisers / keys compared on "
-        "exception class; shaped Enum/IntEnum const/from_bits; Flag classes (1-5 single bits + multi-bit members/aliases, "
+        "exception class; Layout.const and Signal(layout, init=...) with MIXED initialiser kinds (hdl.Const of narrower/wider/"
+        "other-signed shapes, lib.data.Const of equal/different layouts, enum members, Python lists, nested dicts, "
+        "overlapping flexible fields in varying order) read back through Const.__getitem__ and in the simulator; "
+        "shaped Enum/IntEnum const/from_bits; Flag classes (1-5 single bits + multi-bit members/aliases, "
         "all four boundaries): CPython cls(v) and & | ^ ~ vs the Gallina rendering, FlagView & | ^ ~ in the simulator vs "
         "the model. non-trivial = layout has >= 1 field of non-zero width (layout kinds) or the class has >= 1 member and "
         "the answer is not an error (enum/flag kinds); distinct by case hash")
@@ -30,6 +33,8 @@ ERR = {"KeyError": 1, "IndexError": 2, "ValueError": 3, "TypeError": 4, "Attribu
 BOUNDS = ["STRICT", "CONFORM", "EJECT", "KEEP"]
 FINDING_SIGNED_ENUM = "C15-signed-enum-field"
 FINDING_FLAG_INVERT = "C15-flag-invert-wide"
+FINDING_EMPTY_SLICE = "C15-array-empty-slice"
+FINDING_UNION_CONST = "C15-union-const-passthrough"
 
 
 # ---------------------------------------------------------------- layouts (JSON <-> real objects / Gallina)
@@ -136,6 +141,162 @@ def g_init(i):
 
 def g_paths(ps):
     return "[" + "; ".join(zlist(p) for p in ps) + "]"
+
+
+# ---- extended initialisers: int | [[k, x], ...] | {"c": [v, w, sg]} hdl.Const | {"d": [layout, raw]} lib.data.Const
+#      | {"m": v} enumeration member (int if v is not a member) | {"seq": [x0, x1, ...]} Python list (array fields)
+def g_xinit(x):
+    if isinstance(x, int):
+        return f"(XVal {z(x)})"
+    if isinstance(x, list):
+        return "(XMap [" + "; ".join(f"({z(k)}, {g_xinit(y)})" for k, y in x) + "])"
+    if "c" in x:
+        v, w, sg = x["c"]
+        return f"(XConst {z(v)} (Sh {z(w)} {blit(sg)}))"
+    if "d" in x:
+        return f"(XDConst {g_layout(x['d'][0])} {z(x['d'][1])})"
+    if "m" in x:
+        return f"(XVal {z(x['m'])})"
+    return "(XMap [" + "; ".join(f"({i}, {g_xinit(y)})" for i, y in enumerate(x["seq"])) + "])"
+
+
+def pyxinit(l, x):
+    from amaranth.hdl import Const, Shape
+    if isinstance(x, int):
+        return x
+    if isinstance(x, list):
+        out = {}
+        for k, y in x:
+            s = sub(l, k) if l is not None else None
+            out[pykey(l, k) if l is not None and l[0] not in ("leaf", "enum") else f"f{k}"] = pyxinit(s, y)
+        return out
+    if "c" in x:
+        v, w, sg = x["c"]
+        return Const(v, Shape(w, sg))
+    if "d" in x:
+        return build(x["d"][0]).from_bits(x["d"][1])
+    if "m" in x:
+        if l is not None and l[0] == "enum" and x["m"] in l[4]:
+            return build_enum(l[1], l[2], l[3], l[4])(x["m"])
+        return x["m"]
+    s = l[1] if l is not None and l[0] == "array" else None
+    return [pyxinit(s, y) for y in x["seq"]]
+
+
+def variant_layout(rng, l):
+    """a layout to wrap in a lib.data.Const for a field of layout l: equal or different under Layout.__eq__."""
+    t = l[0]
+    r = rng.random()
+    if r < 0.4:
+        return l
+    if t == "struct" and l[1] and r < 0.7:       # same fields as a flexible layout (compares equal), shuffled
+        off, fs = 0, []
+        for k, f in l[1]:
+            g = ["leaf", lsize(f), False] if f[0] not in ("leaf", "enum") and rng.random() < 0.5 else f
+            fs.append([k, off, g])
+            off += lsize(f)
+        rng.shuffle(fs)
+        return ["flex", off, fs]
+    if t == "array":
+        return ["array", l[1], l[2] + rng.choice([0, 1])]
+    if t in ("struct", "union") and l[1]:          # one member changed: differs
+        fs = [[k, f] for k, f in l[1]]
+        i = rng.randrange(len(fs))
+        fs[i] = [fs[i][0], ["leaf", lsize(fs[i][1]) + rng.choice([0, 1]), rng.random() < 0.3 or lsize(fs[i][1]) == 0]]
+        if fs[i][1][2] and fs[i][1][1] == 0:
+            fs[i][1][1] = 1
+        return [t, fs]
+    if t == "flex":
+        return ["flex", l[1] + rng.choice([0, 1]), l[2]]
+    return l
+
+
+def gen_xinit(rng, l, top=True):
+    """mixed-kind initialiser for layout l; returns (xinit, leaf paths reachable through mappings)."""
+    t = l[0]
+    if t == "leaf":
+        w = l[1]
+        r = rng.random()
+        if r < 0.55:                                 # hdl.Const whose shape differs from the field's
+            cw = rng.choice([max(0, w - 2), max(0, w - 1), w, w + 1, w + 3, rng.randrange(0, 9)])
+            csg = rng.random() < 0.5
+            if csg and cw == 0:
+                cw = 1
+            lo, hi = (-(1 << (cw - 1)), 1 << (cw - 1)) if csg else (0, 1 << cw)
+            v = rng.choice([lo, hi - 1, rng.randrange(lo, hi)])
+            return {"c": [v, cw, csg]}, [[]]
+        if r < 0.9:
+            return rng.randrange(-(1 << w) - 2, (1 << w) + 3), [[]]
+        return rng.choice([[[0, 1]], {"d": [["struct", [[0, ["leaf", 2, False]]]], 1]}]), []
+    if t == "enum":
+        r = rng.random()
+        if r < 0.5:
+            return {"m": rng.choice(l[4])}, [[]]
+        if r < 0.7:
+            return rng.choice(l[4] + [rng.randrange(-2, 6)]), [[]]
+        if r < 0.95:
+            cw = rng.choice([l[1], l[1], l[1] + 1])
+            csg = l[2] if rng.random() < 0.8 else not l[2]
+            if csg and cw == 0:
+                cw = 1
+            lo, hi = (-(1 << (cw - 1)), 1 << (cw - 1)) if csg else (0, 1 << cw)
+            return {"c": [rng.randrange(lo, hi), cw, csg]}, [[]]
+        return {"d": [["struct", [[0, ["leaf", l[1], False]]]], rng.randrange(0, 1 << l[1])]}, [[]]
+    r = rng.random()
+    if not top and r < 0.3:                          # lib.data.Const for a layout-shaped field
+        v = variant_layout(rng, l)
+        return {"d": [v, rng.randrange(0, 1 << lsize(v))]}, [[]]
+    if not top and r < 0.38:
+        return rng.choice([{"c": [1, rng.randrange(0, 4), False]}, rng.randrange(0, 3)]), []
+    ks = keys_of(l)
+    if t == "union":
+        ks = rng.sample(ks, min(len(ks), 1 if rng.random() < 0.92 else 2))
+    elif t == "array" and rng.random() < 0.4:       # Python list
+        n = rng.randrange(0, l[2] + 1) if rng.random() < 0.9 else l[2] + 1
+        items, paths = [], []
+        for i in range(n):
+            x, ps = gen_xinit(rng, l[1], False)
+            items.append(x)
+            paths += [[i] + p for p in ps]
+        return {"seq": items}, paths
+    else:
+        ks = [k for k in ks if rng.random() < 0.8]
+        rng.shuffle(ks)                              # flexible layouts: order decides who wins an overlap
+    if rng.random() < 0.04:
+        ks.append(7)
+    kvs, paths = [], []
+    for k in ks:
+        s = sub(l, k)
+        if s is None:
+            kvs.append([k, 1])
+            continue
+        x, ps = gen_xinit(rng, s, False)
+        kvs.append([k, x])
+        paths += [[k] + p for p in ps]
+    return kvs, paths
+
+
+def _has_signed_view_enum(l):
+    t = l[0]
+    if t == "enum":
+        return bool(l[2] and l[3])
+    if t in ("struct", "union"):
+        return any(_has_signed_view_enum(f) for _, f in l[1])
+    if t == "array":
+        return _has_signed_view_enum(l[1])
+    if t == "flex":
+        return any(_has_signed_view_enum(f) for _, _, f in l[2])
+    return False
+
+
+def overlapping_flex(rng):
+    """flexible layout whose fields overlap, for the last-writer-wins rule."""
+    n = rng.randrange(2, 4)
+    fs = []
+    for k in range(n):
+        f = list(rng.choice(LEAVES[1:]))
+        fs.append([k, rng.randrange(0, 5), f])
+    return ["flex", max(o + lsize(f) for _, o, f in fs) + rng.randrange(0, 2), fs]
 
 
 def g_flag(c):
@@ -347,6 +508,21 @@ def gen_cases(tier, seed):
                 # a dynamic index needs a positive element width (Part stride); then Part == Slice arithmetic
                 cases.append({"k": "assign", "l": l, "tv": rng.randrange(0, 1 << n), "p": p, "x": x,
                               "dyn": bool(last_arr and w > 0 and rng.random() < 0.5)})
+        # mixed-kind initialisers (hdl.Const of other shapes, lib.data.Const, members, lists, nested dicts):
+        # .const() read-back and Signal(layout, init=...) read-back in the simulator
+        lx = l if it % 3 else overlapping_flex(rng)
+        if it % 3 == 1:
+            lx = gen_layout(rng, depth, signed_enum=False)
+            if lx[0] in ("leaf", "enum"):
+                lx = ["struct", [[0, lx], [1, list(rng.choice(LEAVES))]]]
+        for _ in range(3):
+            xi, xps = gen_xinit(rng, lx)
+            xps = [p for p in xps if p]
+            rng.shuffle(xps)
+            other = [p for p in leaf_paths(lx) if len(p) == 1 and p not in xps]     # neighbours must stay as they were
+            cases.append({"k": "xconst", "l": lx, "i": xi, "ps": (xps[:6] + other[:3])})
+            if not _has_signed_view_enum(lx):
+                cases.append({"k": "siginit", "l": lx, "i": xi, "ps": (xps[:4] + other[:2])})
     # --- shaped enumerations
     for it in range(150 if not thorough else 1200):
         e = gen_enum_leaf(rng, allow_signed=True)
@@ -443,6 +619,10 @@ def run_impl(c):
     from amaranth.lib import data
     k = c["k"]
     if k == "probe":
+        if c["which"] == "empty_slice":
+            return _probe_empty_slice()
+        if c["which"] == "union_const":
+            return _probe_union_const()
         return _probe_signed_enum() if c["which"] == "signed_enum" else _probe_flag_invert()[:2]
     if k.startswith("flag"):
         return run_flag(c)
@@ -484,6 +664,33 @@ def run_impl(c):
             except Exception as e:
                 out += [0, code(e)]
         return out
+    if k == "xconst":
+        try:
+            cst = L.const(pyxinit(lj, c["i"]))
+        except Exception as e:
+            return [0, code(e)]
+        out = [1, cst.as_bits()]
+        for p in c["ps"]:
+            try:
+                out += [1, val(walk(cst, lj, p))]
+            except Exception as e:
+                out += [0, code(e)]
+        return out
+    if k == "siginit":
+        try:
+            s = Signal(L, init=pyxinit(lj, c["i"]))
+        except Exception as e:
+            return [0, code(e)]
+
+        def fn(ctx):
+            out = [1, s.as_value().init]
+            for p in c["ps"]:
+                try:
+                    out += [1, val(ctx.get(walk(s, lj, p)))]
+                except Exception as e:
+                    out += [0, code(e)]
+            return out
+        return sim_run(fn)
     if k == "bits":
         try:
             cst = L.from_bits(c["raw"])
@@ -605,6 +812,10 @@ def coq_term(c):
         return f"k_getfield {g_layout(c['l'])} {z(c['key'])}"
     if k == "const":
         return f"k_const {g_layout(c['l'])} {g_init(c['i'])} {g_paths(c['ps'])}"
+    if k == "xconst":
+        return f"k_xconst {g_layout(c['l'])} {g_xinit(c['i'])} {g_paths(c['ps'])}"
+    if k == "siginit":
+        return f"k_siginit {g_layout(c['l'])} {g_xinit(c['i'])} {g_paths(c['ps'])}"
     if k == "bits":
         return f"k_bits {g_layout(c['l'])} {z(c['raw'])}"
     if k == "view":
@@ -689,6 +900,31 @@ def _probe_flag_invert():
     return a + fres(~F(1))
 
 
+def _probe_empty_slice():
+    """Python slice semantics: c[3:1] / v[3:1] of a 4-element array is the empty array. -> [1, len, bits] x 2"""
+    from amaranth.hdl import Signal
+    from amaranth.lib import data
+    A = data.ArrayLayout(2, 4)
+    out = []
+    for obj in (A.const([1, 2, 3, 0]), data.View(A, Signal(8))):
+        try:
+            r = obj[3:1]
+            out += [1, len(r), len(r.as_value())]
+        except Exception as e:
+            out += [0, code(e), 0]
+    return out
+
+
+def _probe_union_const():
+    """Layout.const(c) returns c for a lib.data.Const c of the same layout. -> [1, bits]"""
+    from amaranth.lib import data
+    U = data.UnionLayout({"a": 3, "b": 2})
+    try:
+        return [1, U.const(U.const({"a": 5})).as_bits()]
+    except Exception as e:
+        return [0, code(e)]
+
+
 def extra(tier, seed, findings):
     viol, cov = [], {}
     listed = {f.get("id") for f in findings if f.get("property") == ID and f.get("status") == "open"}
@@ -712,4 +948,18 @@ def extra(tier, seed, findings):
         else:
             viol.append({"property": ID, "kind": "input", "case": {"k": "probe", "which": "flag_invert"},
                          "expected_by_model": p2[2:], "observed": p2[:2], "explain": what})
+    for fid, name, probe, want, text in (
+            (FINDING_EMPTY_SLICE, "empty_slice", _probe_empty_slice, [1, 0, 0, 1, 0, 0],
+             "ArrayLayout(2, 4): const[3:1] and view[3:1] (stop < start, stride 1) raise instead of giving the empty array"),
+            (FINDING_UNION_CONST, "union_const", _probe_union_const, [1, 5],
+             "UnionLayout.const(lib.data.Const of the same layout) raises TypeError (len() of the Const) instead of returning it")):
+        got = probe()
+        cov["probe_" + name] = got
+        if got != want:
+            what = f"{fid}: {text} (observed {got}; spec {want})"
+            if fid in listed:
+                viol.append({"known": what})
+            else:
+                viol.append({"property": ID, "kind": "input", "case": {"k": "probe", "which": name},
+                             "expected_by_model": want, "observed": got, "explain": what})
     return viol, cov
